@@ -211,7 +211,7 @@ class Context:
             return "[object Object]"
 
         def proto_hasOwnProperty(this_val, *args):
-            prop = to_string(args[0]) if args else ""
+            prop = to_string(args[0]) if args else "undefined"
             if isinstance(this_val, JSArray):
                 # For arrays, check both properties and array indices
                 idx = array_index(prop)
@@ -284,9 +284,9 @@ class Context:
             return arr
 
         def assign_fn(*args):
-            if not args:
-                return JSObject()
-            target = args[0]
+            target = args[0] if args else UNDEFINED
+            if target is UNDEFINED or target is NULL:
+                raise JSTypeError("Cannot convert undefined or null to object")
             if not isinstance(target, JSObject):
                 return target
             for i in range(1, len(args)):
@@ -363,14 +363,16 @@ class Context:
 
         def create_fn(*args):
             """Object.create(proto, properties)."""
-            proto = args[0] if args else NULL
+            proto = args[0] if args else UNDEFINED
             properties = args[1] if len(args) > 1 else UNDEFINED
 
             obj = JSObject()
-            if proto is NULL or proto is None:
+            if proto is NULL:
                 obj._prototype = None
             elif isinstance(proto, JSObject):
                 obj._prototype = proto
+            else:
+                raise JSTypeError("Object prototype may only be an Object or null")
 
             if properties is not UNDEFINED and isinstance(properties, JSObject):
                 define_properties(obj, properties)
@@ -1074,8 +1076,10 @@ class Context:
         ctx = self  # Capture self for closure
 
         def regexp_constructor_fn(*args):
-            pattern = to_string(args[0]) if args else ""
-            flags = to_string(args[1]) if len(args) > 1 else ""
+            # A missing or undefined pattern is the empty pattern, missing or
+            # undefined flags are no flags
+            pattern = "" if not args or args[0] is UNDEFINED else to_string(args[0])
+            flags = "" if len(args) < 2 or args[1] is UNDEFINED else to_string(args[1])
             # The evaluation that uses the regex installs its own deadline
             # callback (VM._adopt_regex); until then poll the running one's
             poll_callback = None
